@@ -4,6 +4,8 @@
 import IppModel.Model.Iter
 import IppModel.Model.Attr
 import IppModel.Lemmas.SMapBasic
+import IppModel.Lemmas.Container
+import IppModel.Lemmas.Traverse
 namespace Ipp.Props.C19
 open Ipp Ipp.Gen Ipp.SM0
 
@@ -17,13 +19,13 @@ def addAll (gs : List Group) (ops : List Op) : List Group :=
     the same name there, and touches nothing else. -/
 theorem add_into_first (pre post : List Group) (g : Group) (t : DelimiterTag) (n : Bytes) (v : Value)
     (hpre : ∀ x ∈ pre, x.tag ≠ t) (hg : g.tag = t) :
-    addAttr t n v (pre ++ g :: post) = pre ++ { g with attrs := sinsert n v g.attrs } :: post := by
-  sorry
+    addAttr t n v (pre ++ g :: post) = pre ++ { g with attrs := sinsert n v g.attrs } :: post :=
+  Container.addAttr_into_first pre post g t n v hpre hg
 
 /-- When there is no group of that kind, a new group holding just this attribute is appended at the end. -/
 theorem add_appends_new (gs : List Group) (t : DelimiterTag) (n : Bytes) (v : Value) (h : ∀ x ∈ gs, x.tag ≠ t) :
-    addAttr t n v gs = gs ++ [⟨t, [(n, v)]⟩] := by
-  sorry
+    addAttr t n v gs = gs ++ [⟨t, [(n, v)]⟩] :=
+  Container.addAttr_appends_new gs t n v h
 
 /-- after an add, the affected group binds the name to the new value and every other name as before -/
 theorem add_lookup (attrs : List (Bytes × Value)) (n j : Bytes) (v : Value) :
@@ -41,20 +43,26 @@ def opsFor (t : DelimiterTag) (ops : List Op) : List (Bytes × Value) :=
 /-- A message built only by additions holds one group per kind used, in order of first use, each with the
     most recent attribute per name (`sinsertAll` = insert in order, last wins). -/
 theorem history_from_empty (ops : List Op) :
-    addAll [] ops = (firstUse (ops.map (·.1))).map fun t => ⟨t, sinsertAll (opsFor t ops) []⟩ := by
-  sorry
+    addAll [] ops = (firstUse (ops.map (·.1))).map fun t => ⟨t, sinsertAll (opsFor t ops) []⟩ :=
+  Container.adds_from_empty ops
 
 /-- From any start (e.g. a parsed message with repeated groups): the kinds of the existing groups never
     change or move, and new kinds are appended in order of first use. -/
 theorem history_tags (gs : List Group) (ops : List Op) :
     (addAll gs ops).map (·.tag) =
       gs.map (·.tag) ++ (firstUse (ops.map (·.1))).filter (fun t => !(gs.map (·.tag)).contains t) := by
-  sorry
+  have h1 : addAll gs ops = Container.adds gs ops := rfl
+  have h2 : firstUse (ops.map (·.1)) = Container.fuA [] (ops.map (·.1)) := rfl
+  rw [h1, h2, Container.tags_adds, Container.fuA_eq]
 
 /-- Looking groups up by kind returns exactly the groups of that kind, in message order. -/
 theorem groups_of_order (t : DelimiterTag) (gs : List Group) :
     (groupsOf t gs).Sublist gs ∧ (∀ g ∈ groupsOf t gs, g.tag = t) ∧ (∀ g ∈ gs, g.tag = t → g ∈ groupsOf t gs) := by
-  sorry
+  refine ⟨List.filter_sublist, ?_, ?_⟩
+  · intro g hg
+    simpa using (List.mem_filter.mp hg).2
+  · intro g hg ht
+    exact List.mem_filter.mpr ⟨hg, by simpa using ht⟩
 
 /-- Traversal visits the elements of a set in order, the member values of a collection in member-name
     order (the map is kept sorted by name), any other value exactly once. -/
@@ -62,15 +70,16 @@ theorem traversal (v : Value) :
     iterAll v = match v with
       | .array vs => vs
       | .coll ms => ms.map (·.2)
-      | w => [w] := by
-  sorry
+      | w => [w] :=
+  Traverse.iterAll_eq v
 
 /-- …and then it ends: once `next` has returned `None` it keeps returning `None`. -/
 theorem traversal_ends (s : IterSt) (h : s.next.1 = none) : s.next.2 = s ∧ (s.next.2).next.1 = none := by
-  sorry
+  have e := Traverse.next_none s h
+  exact ⟨e, by rw [e]; exact h⟩
 
 /-- after a complete traversal the iterator is exhausted -/
-theorem traversal_exhausts (v : Value) : ((IterSt.collect (valueSize v + 1) v.iter).2).next.1 = none := by
-  sorry
+theorem traversal_exhausts (v : Value) : ((IterSt.collect (valueSize v + 1) v.iter).2).next.1 = none :=
+  Traverse.collect_exhausts v
 
 end Ipp.Props.C19
